@@ -184,7 +184,7 @@ def run(ctx):
     quick = ctx.tier == "quick"
     rng = ctx.rng
     cases = [c for c in answers.load_corpus("C13")]
-    bases = answers.gen_cases(ctx, 140 if quick else 1500, (2, 5), (1, 5), [False, False, True], ties=0.25, q_per=6, consts=0.08, deep=0.35)
+    bases = answers.gen_cases(ctx, 140 if quick else 1500, (2, 5), (1, 5), [False, False, True], ties=0.25, q_per=6, consts=0.08, deep=0.35, big=0.1)
     for b in bases:
         layers = b["_info"]["layers"]
         b = {k: v for k, v in b.items() if not k.startswith("_")}
